@@ -137,7 +137,8 @@ CLAIMED["C05"] = dict(
     technique="Lean 4 totality theorems on the server state-machine model (steps that hold locks cannot panic) + adversarial RPC "
               "histories on the real server compared step by step with the model, probes and a restart after every history",
     text="C05_convert_total (any input incl. empty, any dictionary), C05_confirm_total, C05_register_no_partial_effect, "
-         "C05_noun_entry_applies are kernel-checked; the real server is driven with malformed/odd requests, probed after each "
+         "C05_noun_entry_applies, and over every history of atomic steps C05_history_convert_answered, "
+         "C05_answer_depends_on_dict_and_counts, C05_failed_requests_change_nothing are kernel-checked; the real server is driven with malformed/odd requests, probed after each "
          "request (answer, no poisoned lock), restarted on its own user data and compared with the model throughout.",
     note="PARTIAL: 'answered in bounded time' is observed (5 s deadline), not proved; cubic lattice construction on very long inputs "
          "is outside the model. " + SRV_NOTE, design="5/C05")
@@ -168,12 +169,16 @@ CLAIMED["C08"] = dict(
     engine="lean+corr_server",
     technique="Lean 4 proofs: user.dic round trip for storable user dictionaries (from C10_file), accepted registrations are "
               "storable, restart restores counts/user words/save directory, save is idempotent, the dictionary invariant holds at "
-              "start and is kept by the updater + save/restart histories on the real server with 48 ordered probe conversions",
-    text="Eight theorems kernel-checked; the real server is taken through mixed registration/confirmation histories, saved and "
+              "start, is kept by the updater and by every history of atomic steps without compound confirmations, and then a save + "
+              "restart changes no conversion answer (C08_same_answers_partial) + save/restart histories on the real server with 48 ordered probe conversions",
+    text="Thirteen theorems kernel-checked (C08_user_dic_roundtrip, C08_register_storable, C08_restart_restores, C08_idempotent, "
+         "C08_inv_at_start, C08_inv_apply, C08_inv_step, C08_inv_history, C08_same_answers_partial, …); the real server is taken through mixed registration/confirmation histories, saved and "
          "restarted twice, and every probe answer, Verif.Dump and the bytes of user.dic are compared.",
     note="frequency.bin's postcard encoding is not modelled (compared through the real files/dumps). Compound learning records the "
-         "entry in the user dictionary before the updater applies it (and again when it does), so InvDict is not proved across "
-         "`confirm`; no answer change was observed. " + SRV_NOTE, design="5/C08")
+         "entry in the user dictionary before the updater applies it (and again when it does): a kernel-evaluated witness shows "
+         "InvDict false after such a confirmation, so the same-answers theorem is proved for histories without compound "
+         "confirmations only (PARTIAL; the full statement C08_full_statement is kept in the file); with compounds no answer change "
+         "was observed by the oracle. " + SRV_NOTE, design="5/C08")
 CLAIMED["C09"] = dict(
     engine="lean+strace+fault-enumeration",
     technique="Lean 4 theorem by kernel evaluation over every crash point of the extracted file-operation sequence (boundaries "
@@ -195,17 +200,21 @@ CLAIMED["C14"] = dict(
     engine="lean+corr_concurrent",
     technique="Lean 4 proof that the extracted nested lock acquisitions respect one fixed order and that such an order excludes "
               "every waiting cycle + concurrent clients (up to 32) with delay hooks against the real server",
-    text="C14_lock_order (decide over the regenerated lock edges), C14_no_deadlock (generic), C14_no_deadlock_here are "
-         "kernel-checked; concurrently, every request must complete and registrations must become visible atomically and "
+    text="C14_lock_order (decide over the regenerated lock edges), C14_no_deadlock (generic), C14_no_deadlock_here, and on the "
+         "state machine C14_dict_changes_by_whole_entries (in every history the dictionary changes only by all forms of the queue's "
+         "head entry at once) and C14_answer_is_sequential are kernel-checked; concurrently, every request must complete and registrations must become visible atomically and "
          "monotonically, confirmations must not be lost.",
-    note="PARTIAL: atomicity of each modelled step and the general linearizability clause are validated by the concurrent driver, "
+    note="PARTIAL: that each modelled step is one critical section of the real server is validated by the concurrent driver, "
          "not proved. " + SRV_NOTE, design="5/C14")
 CLAIMED["C15"] = dict(
     engine="lean+corr_concurrent",
     technique="Lean 4 proofs on the state machine: the answering step stores the session, ids are fresh, other clients' "
               "confirmations keep it, a registration is applied exactly once + back-to-back conversion/confirmation pairs from "
               "1–32 concurrent clients on the real server",
-    text="C15_session_recorded, C15_sids_fresh_convert, C15_session_survives_other_confirm, C15_register_once are kernel-checked; "
+    text="C15_session_recorded, C15_sids_fresh_convert, C15_session_survives_other_confirm, C15_register_once and, by induction "
+         "over arbitrary histories of atomic steps (any interleaving of other clients and background tasks), C15_sids_fresh_history, "
+         "C15_confirm_honoured (the confirmation finds the session and updates the count exactly once) and "
+         "C15_registrations_applied_once (the drained channel is appended to the user dictionary once, in order) are kernel-checked; "
          "on the real server the learned count must equal the number of acknowledged confirmations in every configuration.",
     note="PARTIAL: OS/tokio interleavings are sampled, not enumerated. " + SRV_NOTE, design="5/C15")
 CLAIMED["C20"] = dict(
